@@ -182,7 +182,8 @@ def generic_instances(prog, lang):
                                                      for i in range(n)))
                 out.append((name + t, ci, [inner], lhs))
             continue
-        ns = [arity[name]] if name in arity else [2, 3]
+        # n-ary connectives: And('p') / Or('p') with one operand can be built
+        ns = [arity[name]] if name in arity else [1, 2, 3]
         for n in ns:
             holes = [make_hole(prog, i, lang) for i in range(n)]
             lhs = (name, lang) + tuple(('raw', i) for i in range(n))
